@@ -4,7 +4,8 @@ package qbft
 // core/qbft decides agreement for qbft.Run instances that live from the start of a duty to its decision; this part
 // covers what the component adds around them - the life cycle Participate / Propose / decision / late calls, the per
 // duty instance bookkeeping and the receive buffers - which is what decides whether a node really runs ONE instance
-// with ONE continuous state per duty.
+// with ONE continuous state per duty, and whether the instances of DIFFERENT duties that live on the same long-lived
+// component are really separate.
 //
 // Engine timex: every script of a finite product is executed on real Consensus components (real NewConsensus,
 // gater, deadliner, round timers, transport, wire handler; the stub libp2p host and network of the C05 harness)
@@ -16,23 +17,49 @@ package qbft
 //     contradicts itself in one round, yet supports whatever is proposed - within f = 1);
 // Oracle: no honest component hands more than one decision per duty to its subscribers; all decisions of honest
 // components are equal.
+//
+// Multi-duty dimension (c02lMulti): TWO duties X and Y (other slot, other type, or both; all inside the gater window) run
+// on the same four components, the members propose different values for X and for Y, the instances overlap in time in
+// every order (X decided before Y starts / concurrently / Y first), X takes one of three shapes (decided in round 1; round-1
+// leader late = null ROUND-CHANGEs and a decision in a later round; every round-1 COMMIT lost = prepared ROUND-CHANGEs with
+// PREPARE certificates and a justified PRE-PREPARE), and the Byzantine member - still the yes-voter in both instances -
+// additionally moves material BETWEEN the instances at a fixed instant (before Y started at the victim / while Y runs
+// undecided / after Y decided), to one victim or to every honest member, built only from what it has received plus its own
+// key:
+//   decided / preprepare / roundchange : its own DECIDED / PRE-PREPARE / ROUND-CHANGE for duty Y that carries the genuine COMMIT
+//       quorum / ROUND-CHANGE quorum (+ PREPARE certificate) / PREPARE quorum of duty X as justification ("cold"), optionally
+//       after the same message for duty X, where the material is in its legitimate place ("warm");
+//   replay  : every honest message of X once more, unmodified (they are routed by their own signed duty);
+//   relabel : the honest PRE-PREPARE, PREPAREs and COMMITs of X with the duty field rewritten to Y (signatures untouched) and its
+//       own DECIDED for Y justified by the relabelled COMMITs;
+//   xvalues : its own PRE-PREPARE / PREPARE / COMMIT for Y that refer to and carry a value of X, and its votes for Y's value
+//       that carry a value of X in addition.
+// The oracle is the same, per duty. A decided value that nobody proposed for that duty is named in the description of a
+// disagreement (explanation only; that clause belongs to C03, whose check does not use this harness).
 
 import (
 	"context"
 	"crypto/sha256"
 	"fmt"
+	"math/rand"
 	"runtime"
 	"sort"
 	"strings"
+	"sync"
 	"testing"
 	"testing/synctest"
 	"time"
 
+	"github.com/OffchainLabs/go-bitfield"
+	eth2spec "github.com/attestantio/go-eth2-client/spec"
+	eth2p0 "github.com/attestantio/go-eth2-client/spec/phase0"
 	"google.golang.org/protobuf/proto"
+	"google.golang.org/protobuf/types/known/anypb"
 
 	"github.com/obolnetwork/charon/core"
 	pbv1 "github.com/obolnetwork/charon/core/corepb/v1"
 	"github.com/obolnetwork/charon/core/qbft"
+	"github.com/obolnetwork/charon/testutil"
 	"github.com/obolnetwork/charon/zzverif/enumx"
 )
 
@@ -42,15 +69,43 @@ type c02lLife struct {
 	Deaf bool `json:"deaf_before_first_call"`
 }
 
-type c02lScript struct {
-	Byz  int         `json:"byzantine_yes_voter"` // -1: four honest members
-	Life [4]c02lLife `json:"life"`
+type c02lDutyJ struct {
+	Slot uint64 `json:"slot"`
+	Type int    `json:"type"`
 }
 
-func (s c02lScript) String() string {
+func (d c02lDutyJ) duty() core.Duty { return core.Duty{Slot: d.Slot, Type: core.DutyType(d.Type)} }
+
+func c02lDJ(d core.Duty) c02lDutyJ { return c02lDutyJ{Slot: d.Slot, Type: int(d.Type)} }
+
+// c02lMulti is the second duty of a script and what the Byzantine member moves between the two instances.
+type c02lMulti struct {
+	Pair   string      `json:"pair"`
+	X      c02lDutyJ   `json:"duty_x"` // its life cycles are c02lScript.Life
+	Y      c02lDutyJ   `json:"duty_y"`
+	Order  string      `json:"order"`   // X<Y | X||Y | Y<X
+	When   string      `json:"when"`    // the strategy fires: pre = before Y started at the victim | run = while Y runs undecided | post = after Y decided
+	XShape string      `json:"x_shape"` // fast | late-leader | r1-commits-lost
+	LossX  bool        `json:"x_round1_commits_lost"`
+	LifeY  [4]c02lLife `json:"life_y"`
+	Strat  string      `json:"strategy"` // "" = none
+	Warm   bool        `json:"legitimate_use_first"`
+	Victim int         `json:"victim"` // the member that starts Y late in "pre"; the only addressee unless ToAll
+	ToAll  bool        `json:"to_all"`
+	FireMs int         `json:"fire_at_ms"`
+	Rot    uint64      `json:"map_rotation"` // start offset of every map iteration of the execution (runtime overlay)
+}
+
+type c02lScript struct {
+	Byz   int         `json:"byzantine_yes_voter"` // -1: four honest members
+	Life  [4]c02lLife `json:"life"`
+	Multi *c02lMulti  `json:"multi,omitempty"`
+}
+
+func c02lLives(byz int, ls [4]c02lLife) string {
 	var p []string
-	for i, l := range s.Life {
-		if i == s.Byz {
+	for i, l := range ls {
+		if i == byz {
 			p = append(p, "byz")
 			continue
 		}
@@ -60,7 +115,16 @@ func (s c02lScript) String() string {
 		}
 		p = append(p, fmt.Sprintf("P%d,Q%d%s", l.Part, l.Prop, d))
 	}
-	return fmt.Sprintf("byz=%d [%s]", s.Byz, strings.Join(p, " "))
+	return strings.Join(p, " ")
+}
+
+func (s c02lScript) String() string {
+	out := fmt.Sprintf("byz=%d [%s]", s.Byz, c02lLives(s.Byz, s.Life))
+	if m := s.Multi; m != nil {
+		out += fmt.Sprintf(" X=%v Y=%v (%s) order=%s when=%s x-shape=%s Y[%s] strategy=%q warm=%v victim=%d to-all=%v fire=%dms map-rotation=%d",
+			m.X.duty(), m.Y.duty(), m.Pair, m.Order, m.When, m.XShape, c02lLives(s.Byz, m.LifeY), m.Strat, m.Warm, m.Victim, m.ToAll, m.FireMs, m.Rot)
+	}
+	return out
 }
 
 func (l c02lLife) start() int {
@@ -75,20 +139,370 @@ func (l c02lLife) start() int {
 	return l.Prop
 }
 
+// ---------------------------------------------------------------------------------------------------------
+// environment: the C05 environment plus proposals for the additional duties and names for every proposal
+// ---------------------------------------------------------------------------------------------------------
+
+var (
+	c02lAgg  = core.Duty{Slot: c05slot, Type: core.DutyAggregator}     // same slot as c05D, other type
+	c02lAgg2 = core.Duty{Slot: c05slot + 1, Type: core.DutyAggregator} // other slot and other type; leader(c02lAgg2, r) == leader(c05D, r)
+)
+
+type c02lEnv struct {
+	*c05env
+	labels map[string]string // sha256 of the deterministic bytes of a proposal -> "<duty>#p<member>"
+}
+
+func c02lValKey(det []byte) string {
+	h := sha256.Sum256(det)
+	return fmt.Sprintf("%x", h[:])
+}
+
+func c02lNewEnv(t *testing.T) *c02lEnv {
+	e := &c02lEnv{c05env: c05newEnv(t), labels: map[string]string{}}
+	for di, d := range []core.Duty{c02lAgg, c02lAgg2} {
+		for i := 0; i < c05n; i++ {
+			rnd := rand.New(rand.NewSource(int64(7000 + 1000*di + i)))
+			bits := bitfield.NewBitlist(64)
+			bits.SetBitAt(uint64(rnd.Intn(64)), true)
+			agg := core.VersionedAggregatedAttestation{VersionedAttestation: eth2spec.VersionedAttestation{
+				Version: eth2spec.DataVersionDeneb,
+				Deneb: &eth2p0.Attestation{AggregationBits: bits, Data: testutil.RandomAttestationDataSeedPhase0(rnd),
+					Signature: testutil.RandomEth2SignatureWithSeed(int64(7000 + 1000*di + i))},
+			}}
+			set := core.UnsignedDataSet{testutil.RandomCorePubKeySeed(t, rnd): agg}
+			pb, err := core.UnsignedDataSetToProto(set)
+			if err != nil {
+				t.Fatal(err)
+			}
+			e.sets[d] = append(e.sets[d], set)
+			e.props[d] = append(e.props[d], c05det(pb))
+			e.addValue(pb)
+		}
+	}
+	for d, l := range e.props {
+		for i, det := range l {
+			e.labels[c02lValKey(det)] = fmt.Sprintf("%v#p%d", d, i)
+		}
+	}
+	return e
+}
+
+func (e *c02lEnv) label(value proto.Message) string {
+	k := c02lValKey(c05det(value))
+	if l, ok := e.labels[k]; ok {
+		return l
+	}
+	return "unknown:" + k[:8]
+}
+
+// ---------------------------------------------------------------------------------------------------------
+// what the Byzantine member can build from the messages it has received
+// ---------------------------------------------------------------------------------------------------------
+
+const c02lQuorum = (2*c05n + 2) / 3
+
+// c02lMat is the genuine material of one duty's instance as one member has seen it.
+type c02lMat struct {
+	values     map[[32]byte]*anypb.Any
+	all        []*pbv1.QBFTConsensusMsg // every message of the duty from OTHER members, in arrival order
+	pp         *pbv1.QBFTConsensusMsg   // the first PRE-PREPARE of another member
+	commits    []*pbv1.QBFTMsg          // COMMITs of one (round, value) from a quorum of distinct members (the highest such round), all of them
+	prepares   []*pbv1.QBFTMsg          // PREPAREs, likewise
+	rcs        []*pbv1.QBFTMsg          // ROUND-CHANGEs of one round from a quorum of distinct members (the lowest such round)
+	rcPrepares []*pbv1.QBFTMsg          // the PREPARE certificate of the highest prepared round claimed among rcs (empty: all null)
+}
+
+func c02lHash32(b []byte) (h [32]byte, ok bool) {
+	if len(b) != 32 {
+		return h, false
+	}
+	copy(h[:], b)
+	return h, h != [32]byte{}
+}
+
+func c02lMaterial(log []*pbv1.QBFTConsensusMsg, duty core.Duty, self int) (mat c02lMat) {
+	mat.values = map[[32]byte]*anypb.Any{}
+	type gk struct {
+		typ   int64
+		round int64
+		vh    string
+	}
+	groups := map[gk]map[int64]*pbv1.QBFTConsensusMsg{}
+	for _, m := range log {
+		for _, v := range m.GetValues() {
+			inner, err := v.UnmarshalNew()
+			if err != nil {
+				continue
+			}
+			if h, err := hashProto(inner); err == nil {
+				mat.values[h] = v
+			}
+		}
+		if core.DutyFromProto(m.GetMsg().GetDuty()) != duty {
+			continue
+		}
+		if m.GetMsg().GetPeerIdx() != int64(self) {
+			mat.all = append(mat.all, m)
+			if qbft.MsgType(m.GetMsg().GetType()) == qbft.MsgPrePrepare && mat.pp == nil {
+				mat.pp = m
+			}
+		}
+		k := gk{m.GetMsg().GetType(), m.GetMsg().GetRound(), string(m.GetMsg().GetValueHash())}
+		if qbft.MsgType(k.typ) == qbft.MsgRoundChange {
+			k.vh = ""
+		}
+		if groups[k] == nil {
+			groups[k] = map[int64]*pbv1.QBFTConsensusMsg{}
+		}
+		if _, dup := groups[k][m.GetMsg().GetPeerIdx()]; !dup {
+			groups[k][m.GetMsg().GetPeerIdx()] = m
+		}
+	}
+	var keys []gk
+	for k, g := range groups {
+		if len(g) >= c02lQuorum {
+			keys = append(keys, k)
+		}
+	}
+	sort.Slice(keys, func(a, b int) bool {
+		if keys[a].round != keys[b].round {
+			return keys[a].round < keys[b].round
+		}
+		return keys[a].vh < keys[b].vh
+	})
+	members := func(k gk) (out []*pbv1.QBFTConsensusMsg) {
+		for i := int64(0); i < c05n; i++ {
+			if m := groups[k][i]; m != nil {
+				out = append(out, m)
+			}
+		}
+		return out
+	}
+	tops := func(l []*pbv1.QBFTConsensusMsg) (out []*pbv1.QBFTMsg) {
+		for _, m := range l {
+			out = append(out, m.GetMsg())
+		}
+		return out
+	}
+	for _, k := range keys {
+		switch qbft.MsgType(k.typ) {
+		case qbft.MsgCommit:
+			mat.commits = tops(members(k)) // ascending rounds: the highest stays
+		case qbft.MsgPrepare:
+			mat.prepares = tops(members(k))
+		case qbft.MsgRoundChange:
+			if mat.rcs != nil {
+				continue
+			}
+			ms := members(k)
+			mat.rcs = tops(ms)
+			best := int64(0)
+			for _, m := range ms {
+				if pr := m.GetMsg().GetPreparedRound(); pr > best && len(m.GetJustification()) >= c02lQuorum {
+					best = pr
+					mat.rcPrepares = m.GetJustification()
+				}
+			}
+		}
+	}
+	return mat
+}
+
+// c02lXmsg is one message of a cross-instance strategy. cat: primer (legitimate use of the material in its own instance),
+// transplant, replay, relabel, xvalue.
+type c02lXmsg struct {
+	cat string
+	m   *pbv1.QBFTConsensusMsg
+}
+
+func c02lXkey(m *pbv1.QBFTMsg) string {
+	return fmt.Sprintf("%x/%v", m.GetSignature(), core.DutyFromProto(m.GetDuty()))
+}
+
+// c02lCross builds the messages of the strategy. missing names the genuine material the strategy needs and the member has not seen.
+func c02lCross(e *c02lEnv, byz int, mu *c02lMulti, mat c02lMat, ymat c02lMat) (out []c02lXmsg, missing string) {
+	X, Y := mu.X.duty(), mu.Y.duty()
+	zero := c02lZero32()
+	mk := func(typ qbft.MsgType, duty core.Duty, round int64, vh []byte, pr int64, pvh []byte, just []*pbv1.QBFTMsg, extra ...[]byte) *pbv1.QBFTConsensusMsg {
+		if vh == nil {
+			vh = zero
+		}
+		if pvh == nil {
+			pvh = zero
+		}
+		cm := &pbv1.QBFTConsensusMsg{Justification: just, Msg: e.sign(&pbv1.QBFTMsg{Type: int64(typ), Duty: core.DutyToProto(duty), PeerIdx: int64(byz),
+			Round: round, ValueHash: vh, PreparedRound: pr, PreparedValueHash: pvh}, int64(byz))}
+		need := append([][]byte{vh, pvh}, extra...)
+		for _, j := range just {
+			need = append(need, j.GetValueHash(), j.GetPreparedValueHash())
+		}
+		done := map[[32]byte]bool{}
+		for _, b := range need {
+			if h, ok := c02lHash32(b); ok && !done[h] && mat.values[h] != nil {
+				done[h] = true
+				cm.Values = append(cm.Values, mat.values[h])
+			}
+		}
+		return cm
+	}
+	// a value of X: the decided one, else the proposed one
+	var vx []byte
+	switch {
+	case len(mat.commits) > 0:
+		vx = mat.commits[0].GetValueHash()
+	case len(mat.prepares) > 0:
+		vx = mat.prepares[0].GetValueHash()
+	case mat.pp != nil:
+		vx = mat.pp.GetMsg().GetValueHash()
+	}
+	both := func(f func(d core.Duty) *pbv1.QBFTConsensusMsg) {
+		if mu.Warm {
+			out = append(out, c02lXmsg{"primer", f(X)})
+		}
+		out = append(out, c02lXmsg{"transplant", f(Y)})
+	}
+	switch mu.Strat {
+	case "decided":
+		if len(mat.commits) < c02lQuorum {
+			return nil, "commit-quorum"
+		}
+		c := mat.commits[0]
+		both(func(d core.Duty) *pbv1.QBFTConsensusMsg {
+			return mk(qbft.MsgDecided, d, c.GetRound(), c.GetValueHash(), 0, nil, mat.commits)
+		})
+	case "roundchange":
+		if len(mat.prepares) < c02lQuorum {
+			return nil, "prepare-quorum"
+		}
+		p := mat.prepares[0]
+		both(func(d core.Duty) *pbv1.QBFTConsensusMsg {
+			return mk(qbft.MsgRoundChange, d, p.GetRound()+1, nil, p.GetRound(), p.GetValueHash(), mat.prepares)
+		})
+	case "preprepare":
+		if len(mat.rcs) < c02lQuorum {
+			return nil, "round-change-quorum"
+		}
+		just := append(append([]*pbv1.QBFTMsg{}, mat.rcs...), mat.rcPrepares...)
+		v := vx
+		if len(mat.rcPrepares) > 0 {
+			v = mat.rcPrepares[0].GetValueHash()
+		}
+		if v == nil {
+			return nil, "value"
+		}
+		both(func(d core.Duty) *pbv1.QBFTConsensusMsg {
+			return mk(qbft.MsgPrePrepare, d, mat.rcs[0].GetRound(), v, 0, nil, just)
+		})
+	case "replay":
+		if len(mat.all) == 0 {
+			return nil, "messages"
+		}
+		for _, m := range mat.all {
+			out = append(out, c02lXmsg{"replay", m})
+		}
+	case "relabel":
+		if len(mat.commits) < c02lQuorum {
+			return nil, "commit-quorum"
+		}
+		re := func(m *pbv1.QBFTMsg) *pbv1.QBFTMsg {
+			c := proto.Clone(m).(*pbv1.QBFTMsg)
+			c.Duty = core.DutyToProto(Y)
+			return c
+		}
+		var tops []*pbv1.QBFTMsg
+		if mat.pp != nil {
+			tops = append(tops, mat.pp.GetMsg())
+		}
+		tops = append(append(tops, mat.prepares...), mat.commits...)
+		for _, m := range tops {
+			if m.GetPeerIdx() == int64(byz) {
+				continue
+			}
+			cm := &pbv1.QBFTConsensusMsg{Msg: re(m)}
+			if h, ok := c02lHash32(m.GetValueHash()); ok && mat.values[h] != nil {
+				cm.Values = append(cm.Values, mat.values[h])
+			}
+			out = append(out, c02lXmsg{"relabel", cm})
+		}
+		var rj []*pbv1.QBFTMsg
+		for _, c := range mat.commits {
+			rj = append(rj, re(c))
+		}
+		c := mat.commits[0]
+		out = append(out, c02lXmsg{"relabel", mk(qbft.MsgDecided, Y, c.GetRound(), c.GetValueHash(), 0, nil, rj)})
+	case "xvalues":
+		if vx == nil {
+			return nil, "value"
+		}
+		out = append(out, c02lXmsg{"xvalue", mk(qbft.MsgPrePrepare, Y, 1, vx, 0, nil, nil)})
+		for round := int64(1); round <= 2; round++ {
+			out = append(out, c02lXmsg{"xvalue", mk(qbft.MsgPrepare, Y, round, vx, 0, nil, nil)},
+				c02lXmsg{"xvalue", mk(qbft.MsgCommit, Y, round, vx, 0, nil, nil)})
+		}
+		if ymat.pp != nil { // its votes for Y's value, with a value of X attached in addition
+			ypp := ymat.pp.GetMsg()
+			for h, v := range ymat.values {
+				if mat.values[h] == nil {
+					mat.values[h] = v
+				}
+			}
+			out = append(out, c02lXmsg{"xvalue", mk(qbft.MsgPrepare, Y, ypp.GetRound(), ypp.GetValueHash(), 0, nil, nil, vx)},
+				c02lXmsg{"xvalue", mk(qbft.MsgCommit, Y, ypp.GetRound(), ypp.GetValueHash(), 0, nil, nil, vx)})
+		}
+	}
+	return out, ""
+}
+
+// ---------------------------------------------------------------------------------------------------------
+// one script
+// ---------------------------------------------------------------------------------------------------------
+
 type c02lResult struct {
-	decisions [4][]string
+	duties    []core.Duty
+	decisions map[core.Duty]*[c05n][]string // per duty and member: the values handed to the subscribers, named after whose proposal for which duty they are
+	decoded   int                           // of these, how many reached the typed subscriber of Subscribe
 	err       string
 	byzSent   int
+	xsent     map[string]int // cross-instance messages by category, per addressee
+	xaccepted map[string]int // of these, how many reached an instance's receive buffer (not counted for replay: indistinguishable from the originals)
+	missing   string
+	maxBuf    int
 }
 
 func c02lZero32() []byte { return make([]byte, 32) }
 
-func c02lRun(t *testing.T, e *c05env, sc c02lScript) (res c02lResult) {
-	runtime.VerifSetMapRot(true, 0)
+func c02lRun(t *testing.T, e *c02lEnv, sc c02lScript) (res c02lResult) {
+	mu := sc.Multi
+	rot := uint64(0)
+	if mu != nil {
+		rot = mu.Rot
+	}
+	runtime.VerifSetMapRot(true, rot)
 	runtime.VerifSetSelMode(1)
 	defer runtime.VerifSetMapRot(false, 0)
 	defer runtime.VerifSetSelMode(0)
-	duty := c05D
+	res.duties = []core.Duty{c05D}
+	lives := [][c05n]c02lLife{sc.Life}
+	horizon := 14 * time.Second
+	if mu != nil {
+		res.duties = []core.Duty{mu.X.duty(), mu.Y.duty()}
+		lives = append(lives, mu.LifeY)
+		horizon = 20 * time.Second
+	}
+	res.decisions = map[core.Duty]*[c05n][]string{}
+	for _, d := range res.duties {
+		res.decisions[d] = &[c05n][]string{}
+	}
+	res.xsent, res.xaccepted = map[string]int{}, map[string]int{}
+	inScript := func(d core.Duty) bool {
+		for _, x := range res.duties {
+			if x == d {
+				return true
+			}
+		}
+		return false
+	}
 	synctest.Test(t, func(t *testing.T) {
 		ctx, cancel := context.WithCancel(context.Background())
 		t0 := time.Now()
@@ -101,49 +515,94 @@ func c02lRun(t *testing.T, e *c05env, sc c02lScript) (res c02lResult) {
 			}
 			return time.Duration(sc.Life[i].start()) * time.Millisecond
 		}
+		var (
+			obs     sync.Mutex // harness-side records
+			byzLog  []*pbv1.QBFTConsensusMsg
+			sniffed [c05n][]*pbv1.QBFTConsensusMsg
+			xkeys   = map[string]string{}
+		)
 		// the Byzantine member's reactions
-		seenPP, seenRC := map[string]bool{}, map[int64]bool{}
-		byzSend := func(m *pbv1.QBFTConsensusMsg) {
+		seenPP, seenRC := map[string]bool{}, map[string]bool{}
+		sendTo := func(m *pbv1.QBFTConsensusMsg, to int) {
 			b, err := proto.Marshal(m)
 			if err != nil {
 				return
 			}
-			frame := c05frame(b)
+			net.q <- c05sent{From: sc.Byz, To: to, Frame: c05frame(b)}
+		}
+		byzSend := func(m *pbv1.QBFTConsensusMsg) {
+			obs.Lock()
+			byzLog = append(byzLog, m)
+			obs.Unlock()
 			for i := 0; i < c05n; i++ {
 				if i == sc.Byz || time.Since(t0) < deafUntil(i) {
 					continue
 				}
 				res.byzSent++
-				net.q <- c05sent{From: sc.Byz, To: i, Frame: frame}
+				sendTo(m, i)
 			}
 		}
-		byzMsg := func(typ qbft.MsgType, round int64, vh []byte) *pbv1.QBFTMsg {
+		byzMsg := func(duty core.Duty, typ qbft.MsgType, round int64, vh []byte) *pbv1.QBFTMsg {
 			return e.sign(&pbv1.QBFTMsg{Type: int64(typ), Duty: core.DutyToProto(duty), PeerIdx: int64(sc.Byz), Round: round,
 				ValueHash: vh, PreparedRound: 0, PreparedValueHash: c02lZero32()}, int64(sc.Byz))
 		}
+		lostX := func(m *pbv1.QBFTMsg) bool {
+			return mu != nil && mu.LossX && core.DutyFromProto(m.GetDuty()) == mu.X.duty() &&
+				qbft.MsgType(m.GetType()) == qbft.MsgCommit && m.GetRound() == 1
+		}
 		net.drop = func(from, to int, m *pbv1.QBFTConsensusMsg) bool {
+			if lostX(m.GetMsg()) {
+				return true
+			}
 			if to != sc.Byz {
 				return time.Since(t0) < deafUntil(to)
 			}
-			if core.DutyFromProto(m.GetMsg().GetDuty()) != duty {
+			duty := core.DutyFromProto(m.GetMsg().GetDuty())
+			if !inScript(duty) {
 				return true
 			}
+			obs.Lock()
+			byzLog = append(byzLog, m)
+			obs.Unlock()
 			round := m.GetMsg().GetRound()
 			switch qbft.MsgType(m.GetMsg().GetType()) {
 			case qbft.MsgPrePrepare:
-				k := fmt.Sprintf("%d/%x", round, m.GetMsg().GetValueHash())
+				k := fmt.Sprintf("%v/%d/%x", duty, round, m.GetMsg().GetValueHash())
 				if !seenPP[k] {
 					seenPP[k] = true
 					vals := m.GetValues()
+					if mu != nil && mu.Strat == "xvalues" && duty == mu.Y.duty() {
+						// the values of the other duty that it knows ride along with its votes: one before, one after the proposed value
+						obs.Lock()
+						xv := c02lMaterial(byzLog, mu.X.duty(), sc.Byz).values
+						obs.Unlock()
+						var hs [][32]byte
+						for h := range xv {
+							if e.table[h] != nil && strings.HasPrefix(e.labels[c02lValKey(e.table[h].det)], mu.X.duty().String()+"#") {
+								hs = append(hs, h)
+							}
+						}
+						sort.Slice(hs, func(a, b int) bool { return string(hs[a][:]) < string(hs[b][:]) })
+						if len(hs) > 0 {
+							vals = append([]*anypb.Any{xv[hs[0]]}, vals...)
+							res.xsent["xvalue-attached"]++
+						}
+						if len(hs) > 1 {
+							vals = append(vals, xv[hs[len(hs)-1]])
+						}
+					}
 					go func() {
-						byzSend(&pbv1.QBFTConsensusMsg{Msg: byzMsg(qbft.MsgPrepare, round, m.GetMsg().GetValueHash()), Values: vals})
-						byzSend(&pbv1.QBFTConsensusMsg{Msg: byzMsg(qbft.MsgCommit, round, m.GetMsg().GetValueHash()), Values: vals})
+						byzSend(&pbv1.QBFTConsensusMsg{Msg: byzMsg(duty, qbft.MsgPrepare, round, m.GetMsg().GetValueHash()), Values: vals})
+						if c := byzMsg(duty, qbft.MsgCommit, round, m.GetMsg().GetValueHash()); !lostX(c) {
+							byzSend(&pbv1.QBFTConsensusMsg{Msg: c, Values: vals})
+						}
 					}()
 				}
 			case qbft.MsgRoundChange:
-				if !seenRC[round] {
-					seenRC[round] = true
-					go byzSend(&pbv1.QBFTConsensusMsg{Msg: byzMsg(qbft.MsgRoundChange, round, c02lZero32())})
+				k := fmt.Sprintf("%v/%d", duty, round)
+				if !seenRC[k] {
+					seenRC[k] = true
+					go byzSend(&pbv1.QBFTConsensusMsg{Msg: byzMsg(duty, qbft.MsgRoundChange, round, c02lZero32())})
 				}
 			}
 			return true
@@ -153,39 +612,94 @@ func c02lRun(t *testing.T, e *c05env, sc c02lScript) (res c02lResult) {
 				net.nodes = append(net.nodes, &c05node{idx: i, host: &c05host{id: e.peers[i].ID, idx: i, net: net}, delivered: map[core.Duty][][]byte{}})
 				continue
 			}
-			nd, err := c05newNode(ctx, e, i, net, genesis, nil)
+			nd, err := c05newNode(ctx, e.c05env, i, net, genesis, nil)
 			if err != nil {
 				res.err = err.Error()
 				cancel()
 				return
 			}
+			// observation only: what the component hands to its subscribers (before the typed decoding of Subscribe), and
+			// what its instances took out of their receive buffers
+			nd.c.subs = append(nd.c.subs, func(_ context.Context, duty core.Duty, value proto.Message) error {
+				obs.Lock()
+				defer obs.Unlock()
+				if res.decisions[duty] == nil {
+					res.decisions[duty] = &[c05n][]string{}
+					res.duties = append(res.duties, duty)
+				}
+				res.decisions[duty][i] = append(res.decisions[duty][i], e.label(value))
+				return nil
+			})
+			nd.c.snifferFunc = func(in *pbv1.SniffedConsensusInstance) {
+				obs.Lock()
+				defer obs.Unlock()
+				for _, sm := range in.GetMsgs() {
+					sniffed[i] = append(sniffed[i], sm.GetMsg())
+				}
+			}
 			net.nodes = append(net.nodes, nd)
 		}
-		for i, nd := range net.nodes {
-			if i == sc.Byz {
-				continue
-			}
-			l := sc.Life[i]
-			if l.Part >= 0 {
-				go func() {
-					select {
-					case <-time.After(time.Duration(l.Part)*time.Millisecond + time.Duration(i+1)*7*time.Microsecond):
-						_ = nd.c.Participate(ctx, duty)
-					case <-ctx.Done():
-					}
-				}()
-			}
-			if l.Prop >= 0 {
-				go func() {
-					select {
-					case <-time.After(time.Duration(l.Prop)*time.Millisecond + time.Duration(i+1)*11*time.Microsecond):
-						_ = nd.c.Propose(ctx, duty, e.sets[duty][i])
-					case <-ctx.Done():
-					}
-				}()
+		for di, duty := range res.duties {
+			for i, nd := range net.nodes {
+				if i == sc.Byz {
+					continue
+				}
+				l := lives[di][i]
+				if l.Part >= 0 {
+					go func() {
+						select {
+						case <-time.After(time.Duration(l.Part)*time.Millisecond + time.Duration((i+1)*7+di*3)*time.Microsecond):
+							_ = nd.c.Participate(ctx, duty)
+						case <-ctx.Done():
+						}
+					}()
+				}
+				if l.Prop >= 0 {
+					go func() {
+						select {
+						case <-time.After(time.Duration(l.Prop)*time.Millisecond + time.Duration((i+1)*11+di*5)*time.Microsecond):
+							_ = nd.c.Propose(ctx, duty, e.sets[duty][i])
+						case <-ctx.Done():
+						}
+					}()
+				}
 			}
 		}
-		time.Sleep(14 * time.Second)
+		if mu != nil && mu.Strat != "" && sc.Byz >= 0 {
+			go func() {
+				select {
+				case <-time.After(time.Duration(mu.FireMs)*time.Millisecond + 500*time.Microsecond):
+				case <-ctx.Done():
+					return
+				}
+				obs.Lock()
+				log := append([]*pbv1.QBFTConsensusMsg(nil), byzLog...)
+				obs.Unlock()
+				msgs, missing := c02lCross(e, sc.Byz, mu, c02lMaterial(log, mu.X.duty(), sc.Byz), c02lMaterial(log, mu.Y.duty(), sc.Byz))
+				res.missing = missing
+				ordinary := map[string]bool{} // what it sent anyway as the yes-voter (signatures are deterministic)
+				for _, m := range log {
+					if m.GetMsg().GetPeerIdx() == int64(sc.Byz) {
+						ordinary[c02lXkey(m.GetMsg())] = true
+					}
+				}
+				for _, x := range msgs {
+					if k := c02lXkey(x.m.GetMsg()); !ordinary[k] {
+						obs.Lock()
+						xkeys[k] = x.cat
+						obs.Unlock()
+					}
+					for i := 0; i < c05n; i++ {
+						if i == sc.Byz || (!mu.ToAll && i != mu.Victim) {
+							continue
+						}
+						res.xsent[x.cat]++
+						sendTo(x.m, i)
+					}
+				}
+			}()
+		}
+		time.Sleep(horizon)
 		cancel()
 		synctest.Wait()
 		// an instance posts its result into a one-slot channel that Propose reads; results nobody waits for (Participate-only
@@ -195,106 +709,110 @@ func c02lRun(t *testing.T, e *c05env, sc c02lScript) (res c02lResult) {
 				if i == sc.Byz {
 					continue
 				}
-				select {
-				case <-nd.c.getInstanceIO(duty).ErrCh:
-				default:
-				}
-				select {
-				case <-nd.c.getInstanceIO(duty).DecidedAtCh:
-				default:
+				for _, duty := range res.duties {
+					select {
+					case <-nd.c.getInstanceIO(duty).ErrCh:
+					default:
+					}
+					select {
+					case <-nd.c.getInstanceIO(duty).DecidedAtCh:
+					default:
+					}
 				}
 			}
 			synctest.Wait()
 		}
 		time.Sleep(2 * time.Minute) // stream handlers run on their own receive timeout
 		synctest.Wait()
+		obs.Lock()
+		defer obs.Unlock()
 		for i, nd := range net.nodes {
+			if i == sc.Byz {
+				continue
+			}
 			nd.mu.Lock()
-			for _, d := range nd.delivered[duty] {
-				h := sha256.Sum256(d)
-				res.decisions[i] = append(res.decisions[i], fmt.Sprintf("%x", h[:4]))
+			for _, l := range nd.delivered {
+				res.decoded += len(l)
 			}
 			nd.mu.Unlock()
+			res.maxBuf = max(res.maxBuf, c05maxBuffered(nd.c))
+			if len(xkeys) == 0 {
+				continue
+			}
+			got := sniffed[i]
+			for _, l := range c05peek(nd.c) {
+				for _, m := range l {
+					got = append(got, m.ToConsensusMsg())
+				}
+			}
+			for _, m := range got {
+				if cat, ok := xkeys[c02lXkey(m.GetMsg())]; ok && cat != "replay" {
+					res.xaccepted[cat]++
+				}
+			}
 		}
 	})
 	return res
 }
 
 func c02lCheck(sc c02lScript, r c02lResult) (sigs, descs []string) {
-	vals := map[string][]int{}
-	for i := 0; i < c05n; i++ {
-		if i == sc.Byz {
+	for di, duty := range r.duties {
+		suffix, name := "", ""
+		if sc.Multi != nil {
+			strat := sc.Multi.Strat
+			if strat == "" {
+				strat = "none"
+			}
+			which := "other"
+			switch di {
+			case 0:
+				which = "X"
+			case 1:
+				which = "Y"
+			}
+			suffix = fmt.Sprintf(" duties=2 duty=%s strategy=%s", which, strat)
+			name = fmt.Sprintf(" %v (%s)", duty, which)
+		}
+		dec := r.decisions[duty]
+		if dec == nil {
 			continue
 		}
-		if len(r.decisions[i]) > 1 {
-			sigs = append(sigs, "kind=decided-twice level=component")
-			descs = append(descs, fmt.Sprintf("member %d handed %d decisions for one duty to its subscribers: %v", i, len(r.decisions[i]), r.decisions[i]))
+		vals := map[string][]int{}
+		for i := 0; i < c05n; i++ {
+			if i == sc.Byz {
+				continue
+			}
+			if len(dec[i]) > 1 {
+				sigs = append(sigs, "kind=decided-twice level=component"+suffix)
+				descs = append(descs, fmt.Sprintf("member %d handed %d decisions for one duty%s to its subscribers: %v", i, len(dec[i]), name, dec[i]))
+			}
+			for _, v := range dec[i] {
+				vals[v] = append(vals[v], i)
+			}
 		}
-		for _, v := range r.decisions[i] {
-			vals[v] = append(vals[v], i)
+		if len(vals) > 1 {
+			sigs = append(sigs, "kind=disagreement level=component"+suffix)
+			expl := ""
+			for v := range vals {
+				if !strings.HasPrefix(v, duty.String()+"#") {
+					expl += fmt.Sprintf("; %s is not a value that a member proposed for %v", v, duty)
+				}
+			}
+			descs = append(descs, fmt.Sprintf("honest members decided different values for one duty%s: %v (value -> members; values are named <duty>#p<proposer>)%s", name, vals, expl))
 		}
-	}
-	if len(vals) > 1 {
-		sigs = append(sigs, "kind=disagreement level=component")
-		descs = append(descs, fmt.Sprintf("honest members decided different values for one duty: %v", vals))
 	}
 	return
 }
 
-func TestVerifC02L(t *testing.T) {
-	r := enumx.New(t, "C02")
-	defer r.Finish()
-	e := c05newEnv(t)
-	judge := func(sc c02lScript) {
-		res := c02lRun(t, e, sc)
-		if res.err != "" {
-			r.Note("component run not built: " + res.err)
-			return
-		}
-		sigs, descs := c02lCheck(sc, res)
-		nd := 0
-		for i := range res.decisions {
-			if len(res.decisions[i]) > 0 {
-				nd++
-			}
-		}
-		cls := fmt.Sprintf("component:byz=%v:decided=%d", sc.Byz >= 0, nd)
-		r.Eval(cls)
-		r.Outcome(cls)
-		r.Steps(1)
-		r.Count("component_scripts", 1)
-		r.Count("component_members_decided", nd)
-		r.Count("component_byzantine_messages", res.byzSent)
-		for i, sig := range sigs {
-			ok := true
-			for k := 0; k < 3; k++ {
-				s2, _ := c02lCheck(sc, c02lRun(t, e, sc))
-				if !strings.Contains(strings.Join(s2, "|"), sig) {
-					ok = false
-				}
-			}
-			if !ok {
-				r.Unconfirmed(sig + " " + sc.String())
-				continue
-			}
-			r.Violation(sig, fmt.Sprintf("%s [script %s]", descs[i], sc), sc)
-		}
-	}
-	if r.ReplayPath != "" {
-		var sc c02lScript
-		if err := r.ReplayCase(&sc); err != nil {
-			t.Fatal(err)
-		}
-		res := c02lRun(t, e, sc)
-		fmt.Printf("replay %s -> decisions %v err=%q\n", sc, res.decisions, res.err)
-		judge(sc)
-		return
-	}
+// ---------------------------------------------------------------------------------------------------------
+// the script spaces
+// ---------------------------------------------------------------------------------------------------------
+
+func c02lSingleScripts(thorough bool) (scripts []c02lScript) {
 	lives := []c02lLife{{0, 0, false}, {0, 1200, false}, {1200, 1200, true}, {0, -1, false}}
-	if enumx.Thorough() {
+	if thorough {
 		lives = append(lives, c02lLife{-1, 0, false}, c02lLife{0, 300, false}, c02lLife{1200, 1200, false}, c02lLife{1200, 2400, true}, c02lLife{2400, 2400, true}, c02lLife{-1, 1200, true})
 	}
-	var scripts []c02lScript
 	for byz := -1; byz < c05n; byz++ {
 		idx := make([]int, c05n)
 		for {
@@ -326,7 +844,222 @@ func TestVerifC02L(t *testing.T) {
 			}
 		}
 	}
-	sort.SliceStable(scripts, func(a, b int) bool { return false })
+	return scripts
+}
+
+type c02lPair struct {
+	name string
+	x, y core.Duty
+}
+
+var c02lPairs = []c02lPair{
+	{"next-slot/same-type", c05D, c05D2},
+	{"same-slot/other-type", c05D, c02lAgg},
+	{"next-slot/other-type/same-leaders", c05D, c02lAgg2},
+}
+
+type c02lStrat struct {
+	name   string
+	warm   bool
+	xshape string // the shape of X that the quick tier pairs the strategy with (one that yields its material)
+}
+
+const (
+	c02lFire    = 2700 // ms: X is decided in every shape (at the latest at 2.1 s, round 3)
+	c02lLateY   = 3000 // ms: the late start of Y ("pre": the victim; "run": Y's round-1 leader proposes)
+	c02lYAfterX = 2400
+)
+
+// c02lMultiScript expands the symbolic coordinates into explicit life cycles.
+func c02lMultiScript(byz int, p c02lPair, order, when, xshape string, st c02lStrat, victim int, toAll bool) c02lScript {
+	tx, ty := 0, 0
+	switch order {
+	case "X<Y":
+		ty = c02lYAfterX
+	case "Y<X":
+		tx = 300
+	}
+	mu := &c02lMulti{Pair: p.name, X: c02lDJ(p.x), Y: c02lDJ(p.y), Order: order, When: when, XShape: xshape, LossX: xshape == "r1-commits-lost",
+		Strat: st.name, Warm: st.warm, Victim: victim, ToAll: toAll, FireMs: c02lFire}
+	sc := c02lScript{Byz: byz, Multi: mu}
+	for i := 0; i < c05n; i++ {
+		sc.Life[i] = c02lLife{Part: tx, Prop: tx}
+		mu.LifeY[i] = c02lLife{Part: ty, Prop: ty}
+	}
+	if xshape == "late-leader" {
+		sc.Life[c05leader(p.x, 1)].Prop = tx + 1200
+	}
+	switch when {
+	case "pre":
+		mu.LifeY[victim] = c02lLife{Part: c02lLateY, Prop: c02lLateY}
+	case "run":
+		mu.LifeY[c05leader(p.y, 1)].Prop = c02lLateY
+	}
+	if byz >= 0 {
+		sc.Life[byz], mu.LifeY[byz] = c02lLife{}, c02lLife{}
+	}
+	return sc
+}
+
+// c02lRotations: the same script under the other start offsets of map iteration (which of several attached values a
+// member picks up, and which COMMIT of a quorum comes first, can depend on the iteration order of small maps).
+func c02lRotations(sc c02lScript) (out []c02lScript) {
+	for rot := uint64(1); rot < c05n; rot++ {
+		mu := *sc.Multi
+		mu.Rot = rot
+		out = append(out, c02lScript{Byz: sc.Byz, Life: sc.Life, Multi: &mu})
+	}
+	return out
+}
+
+func c02lMultiScripts(thorough bool) (scripts []c02lScript) {
+	orders := []string{"X<Y", "X||Y", "Y<X"}
+	whens := []string{"pre", "run", "post"}
+	shapes := []string{"fast", "late-leader", "r1-commits-lost"}
+	strats := []c02lStrat{
+		{"decided", true, "fast"}, {"preprepare", true, "r1-commits-lost"}, {"roundchange", true, "r1-commits-lost"},
+		{"replay", false, "fast"}, {"relabel", false, "fast"}, {"xvalues", false, "fast"},
+		{"decided", false, "fast"}, {"preprepare", false, "r1-commits-lost"}, {"roundchange", false, "r1-commits-lost"},
+	}
+	none := c02lStrat{}
+	if !thorough {
+		// four honest members, two duties: every pair x order x late-start shape of Y x {X decided in round 1, X with prepared round changes}
+		for _, p := range c02lPairs {
+			for _, o := range orders {
+				for _, w := range whens {
+					for _, xs := range []string{"fast", "r1-commits-lost"} {
+						scripts = append(scripts, c02lMultiScript(-1, p, o, w, xs, none, 0, false))
+					}
+				}
+			}
+		}
+		// Byzantine member under every index x the first two pairs x order x when x the six strategies (transplants warm) x {one victim, all}
+		for byz := 0; byz < c05n; byz++ {
+			for _, p := range c02lPairs[:2] {
+				for _, o := range orders {
+					for _, w := range whens {
+						for _, st := range strats[:6] {
+							for _, all := range []bool{false, true} {
+								scripts = append(scripts, c02lMultiScript(byz, p, o, w, st.xshape, st, (byz+1)%c05n, all))
+								if st.name == "xvalues" && all {
+									scripts = append(scripts, c02lRotations(scripts[len(scripts)-1])...)
+								}
+							}
+						}
+					}
+				}
+			}
+		}
+		return scripts
+	}
+	for byz := -1; byz < c05n; byz++ {
+		for _, p := range c02lPairs {
+			for _, o := range orders {
+				for _, w := range whens {
+					for _, xs := range shapes {
+						for victim := 0; victim < c05n; victim++ {
+							if victim == byz {
+								continue
+							}
+							scripts = append(scripts, c02lMultiScript(byz, p, o, w, xs, none, victim, false))
+							if byz < 0 {
+								continue
+							}
+							for _, st := range strats {
+								for _, all := range []bool{false, true} {
+									scripts = append(scripts, c02lMultiScript(byz, p, o, w, xs, st, victim, all))
+									if st.name == "xvalues" && all {
+										scripts = append(scripts, c02lRotations(scripts[len(scripts)-1])...)
+									}
+								}
+							}
+						}
+					}
+				}
+			}
+		}
+	}
+	return scripts
+}
+
+func TestVerifC02L(t *testing.T) {
+	r := enumx.New(t, "C02")
+	defer r.Finish()
+	e := c02lNewEnv(t)
+	judge := func(sc c02lScript) {
+		res := c02lRun(t, e, sc)
+		if res.err != "" {
+			r.Note("component run not built: " + res.err)
+			return
+		}
+		sigs, descs := c02lCheck(sc, res)
+		var nd [2]int
+		for di, duty := range res.duties {
+			for i := range res.decisions[duty] {
+				if di < 2 && len(res.decisions[duty][i]) > 0 {
+					nd[di]++
+				}
+			}
+		}
+		cls := fmt.Sprintf("component:byz=%v:decided=%d", sc.Byz >= 0, nd[0])
+		if mu := sc.Multi; mu != nil {
+			cls = fmt.Sprintf("component2:strategy=%s:when=%s:decidedX=%d:decidedY=%d", mu.Strat, mu.When, nd[0], nd[1])
+			r.Count("component_multi_duty_scripts", 1)
+			r.Count("component_multi_duty_members_decided_y", nd[1])
+			if mu.Strat != "" {
+				if res.missing != "" {
+					r.Count("component_cross_instance_material_not_seen:"+mu.Strat+":"+res.missing, 1)
+				}
+				for cat, n := range res.xsent {
+					r.Count("component_cross_instance_sent:"+cat, n)
+				}
+				for cat, n := range res.xaccepted {
+					r.Count("component_cross_instance_reached_a_receive_buffer:"+cat, n)
+				}
+			}
+		} else {
+			r.Count("component_scripts", 1)
+		}
+		r.Eval(cls)
+		r.Outcome(cls)
+		r.Steps(1)
+		r.Count("component_members_decided", nd[0])
+		r.Count("component_decisions_decoded_by_typed_subscriber", res.decoded)
+		r.Count("component_byzantine_messages", res.byzSent)
+		if res.maxBuf >= 100 {
+			r.Count("component_receive_buffer_full", 1)
+		}
+		for i, sig := range sigs {
+			ok := true
+			for k := 0; k < 3; k++ {
+				s2, _ := c02lCheck(sc, c02lRun(t, e, sc))
+				if !strings.Contains(strings.Join(s2, "|")+"|", sig+"|") {
+					ok = false
+				}
+			}
+			if !ok {
+				r.Unconfirmed(sig + " " + sc.String())
+				continue
+			}
+			r.Violation(sig, fmt.Sprintf("%s [script %s]", descs[i], sc), sc)
+		}
+	}
+	if r.ReplayPath != "" {
+		var sc c02lScript
+		if err := r.ReplayCase(&sc); err != nil {
+			t.Fatal(err)
+		}
+		res := c02lRun(t, e, sc)
+		fmt.Printf("replay %s ->", sc)
+		for _, d := range res.duties {
+			fmt.Printf(" %v: %v", d, *res.decisions[d])
+		}
+		fmt.Printf(" cross-instance sent=%v reached-a-buffer=%v not-seen=%q err=%q\n", res.xsent, res.xaccepted, res.missing, res.err)
+		judge(sc)
+		return
+	}
+	scripts := append(c02lSingleScripts(enumx.Thorough()), c02lMultiScripts(enumx.Thorough())...)
+	samples := 0
 	for i, sc := range scripts {
 		if !r.Mine() {
 			continue
@@ -336,8 +1069,11 @@ func TestVerifC02L(t *testing.T) {
 			return
 		}
 		judge(sc)
-		if i < 2 {
+		if i < 2 || (sc.Multi != nil && sc.Multi.Strat != "" && samples < 2) {
 			r.Sample(sc.String())
+			if sc.Multi != nil {
+				samples++
+			}
 		}
 	}
 }
